@@ -13,6 +13,7 @@ op  = ["bind", m, prefix|None, ns, override, replace]   Graph.bind / NamespaceMa
       ["parse", m, [[prefix, ns]…]]      Turtle document with @prefix lines
       ["parsexml", m, [[prefix|None, ns]…]]  RDF/XML document with xmlns attributes
       ["ser", m, s, p, o]                serialize(format="turtle") of a graph holding that triple
+      ["split", iri, strict]             rdflib.namespace.split_uri(iri[, NAME_START_CATEGORIES]) (stateless)
       ["serdoc", m, fmt, [[s, p, o, kind]…]]  serialize(format=turtle|n3) of a fresh graph (same store, same
                                          manager) holding these triples (kind "u" IRI / "l" plain literal); the
                                          OUTPUT is checked (prefix table, re-parse) and its @prefix table is
@@ -86,6 +87,27 @@ def _w(rng, pairs):
         if r <= 0:
             return x
     return pairs[-1][0]
+
+
+# alphabet for split_uri probes (all tabulated): name-start letters, digits, characters allowed inside
+# names but not at their start, and characters that end a name
+_SP_START = ["a", "Z", "é", "中", "ǅ", "ⅷ", "_"]
+_SP_DIGIT = ["1", "٣"]
+_SP_INNER = [".", "-", "%", "·", "(", ")", "́", "ʰ", "ः"]
+_SP_BREAK = ["/", "#", ":", "€", "?", "=", "~", "@"]
+
+
+def gen_split_iri(rng):
+    r = rng.random()
+    if r < 0.08:
+        return XMLNS + "".join(rng.choice(_SP_START + _SP_BREAK + _SP_INNER) for _ in range(rng.randint(0, 3)))
+    head = rng.choice(["", "", "http://e.org/", "urn:x:", "/", "a", "1", "-", "é/"])
+    mid = "".join(rng.choice(_SP_START + _SP_DIGIT + _SP_INNER + _SP_BREAK) for _ in range(rng.randint(0, 4)))
+    brk = rng.choice(_SP_BREAK + ["", ""])
+    boundary = "".join(rng.choice(_SP_DIGIT + _SP_INNER) for _ in range(rng.randint(0, 2)))  # digits/dots/hyphens at the boundary
+    name = "".join(rng.choice(_SP_START + _SP_START + _SP_DIGIT + _SP_INNER) for _ in range(rng.randint(0, 4)))
+    tail = rng.choice(["", "", "", "/", "#", ".", "-", "%"])  # trailing split / non-start characters
+    return head + mid + brk + boundary + name + tail
 
 
 def _doc_triples(rng, nss, counter, n):
@@ -189,7 +211,7 @@ def gen_case(rng, tier, i):
             ops.append(list(rng.choice(qs)))  # ask again later: (q, bind, q) interleavings
             continue
         kind = _w(rng, [("bind", 38), ("sbind", 3), ("qname", 12), ("cq", 9), ("cqs", 5), ("qstrict", 3), ("curie", 7),
-                        ("n3", 6), ("expand", 4), ("reset", 3), ("parse", 4), ("parsexml", 2), ("ser", 3), ("serdoc", 3)])
+                        ("n3", 6), ("expand", 4), ("reset", 3), ("parse", 4), ("parsexml", 2), ("ser", 3), ("serdoc", 3), ("split", 7)])
         if kind == "bind":
             ov, rp = _w(rng, [((True, False), 5), ((False, False), 2), ((True, True), 2), ((False, True), 2)])
             ops.append(["bind", mgr(), pre(), rng.choice(vn), ov, rp])
@@ -221,6 +243,8 @@ def gen_case(rng, tier, i):
             ops.append(["parsexml", mgr(), d])
         elif kind == "ser":
             ops.append(["ser", mgr(), rng.choice(valid), rng.choice(valid), rng.choice(valid)])
+        elif kind == "split":
+            ops.append(["split", gen_split_iri(rng) if rng.random() < 0.8 else rng.choice(iris), rng.random() < 0.35])
         elif kind == "serdoc":
             ops.append(["serdoc", mgr(), rng.choice(["turtle", "turtle", "n3"]), _doc_triples(rng, absns, counter, rng.randint(1, 4))])
     case = {"cfg": cfg, "bn": bn, "bn1": bn1, "vp": vp, "vn": vn, "ops": ops}
@@ -237,7 +261,7 @@ def steps(case):
     out = [["minit", 0, case["bn"]]]
     made1 = False
     for op in case["ops"]:
-        if op[0] not in ("sbind", "expand") and op[1] == 1 and not made1:
+        if op[0] not in ("sbind", "expand", "split") and op[1] == 1 and not made1:
             made1 = True
             out.append(["minit", 1, case["bn1"]])
         out.append(op)
@@ -447,6 +471,9 @@ class Impl:
             return "s " + str(r), str(r)
         if kind == "serdoc":
             return self.serdoc(op)
+        if kind == "split":
+            r = _N.split_uri(op[1], _N.NAME_START_CATEGORIES) if op[2] else _N.split_uri(op[1])
+            return "split %s>%s" % (str(r[0]), r[1]), (str(r[0]), r[1])
         g = self.graph(op[1])
         nm = g.namespace_manager
         if kind == "bind":
@@ -591,7 +618,11 @@ def run_impl(case):
             im.doc_problems = []
             stats["serdoc_" + op[2]] = stats.get("serdoc_" + op[2], 0) + 1
         _check_bij(im, case, k, viol)
-        if res is not None and kind != "expand":
+        if kind == "split" and res is not None:
+            stats["split_ok"] = stats.get("split_ok", 0) + 1
+            if res[0] + res[1] != op[1]:
+                viol.append(f"expand: step {k} split_uri({op[1]!r}) = {res!r} does not concatenate to the IRI")
+        elif res is not None and kind != "expand":
             if _check_q(im, op, res, k, viol):
                 stats["prefixed_result"] = stats.get("prefixed_result", 0) + 1
                 if rebound:
@@ -629,6 +660,8 @@ def model_lines(case):
             lines.append(f"{k} {op[1]} {_e(op[2])}")
         elif k == "expand":
             lines.append(f"expand {_e(op[1])}")
+        elif k == "split":
+            lines.append(f"split {_b(op[2])} {_e(op[1])}")
         elif k == "reset":
             lines.append(f"reset {op[1]}")
         elif k in ("parse", "parsexml"):
@@ -660,7 +693,7 @@ def shrink(case):
     if case["cfg"] != "memory":
         yield {**case, "cfg": "memory", "bn1": "none"}
     for i, op in enumerate(ops):
-        if op[0] not in ("sbind", "expand") and op[1] == 1:
+        if op[0] not in ("sbind", "expand", "split") and op[1] == 1:
             yield {**case, "ops": ops[:i] + [[op[0], 0] + op[2:]] + ops[i + 1:]}
         if op[0] == "serdoc" and len(op[3]) > 1:
             for j in range(len(op[3])):
